@@ -54,6 +54,10 @@ pub enum Ctor {
     StreamInfo { rate: usize, ch: usize, bps: usize, min_bs: usize, max_bs: usize, min_fs: usize, max_fs: usize, total: usize },
     StreamInfoBare { rate: usize, ch: usize, bps: usize },
     MetadataUnknown { tag: u8, len: usize },
+    /// Two constructed stereo frames with channel assignments `a`, `b` (0 = independent, 1/2/3 = left/right/mid-side;
+    /// the side channel one bit wider, filled with the extremes of its width) parsed one after the other by ONE
+    /// parser value, and a stream of three such frames (a, b, a) parsed by `parser::stream`
+    FrameSeq { a: u8, b: u8, bps: usize, bs: usize },
 }
 
 fn good_res() -> ResArgs {
@@ -413,6 +417,68 @@ fn run_ctor(c: &Ctor) -> (String, Vec<(String, String)>) {
                 }
             }
         }
+        Ctor::FrameSeq { a, b, bps, bs } => {
+            let mk = |asg: u8, n: u32| -> Result<Frame, String> {
+                let ca = match asg {
+                    0 => ChannelAssignment::Independent(2),
+                    1 => ChannelAssignment::LeftSide,
+                    2 => ChannelAssignment::RightSide,
+                    _ => ChannelAssignment::MidSide,
+                };
+                let hdr = FrameHeader::new(*bs, ca, *bps, 44100, FrameOffset::Frame(n)).map_err(|e| format!("{e:?}"))?;
+                let side_ch = match asg {
+                    0 => usize::MAX,
+                    2 => 0,
+                    _ => 1,
+                };
+                let mut subs: Vec<SubFrame> = Vec::new();
+                for ch in 0..2usize {
+                    if ch == side_ch {
+                        let w = *bps + 1;
+                        let (hi, lo) = ((1i32 << (w - 1)) - 1, -(1i32 << (w - 1)));
+                        let v: Vec<i32> = (0..*bs as i32).map(|t| if t % 2 == 0 { hi - t } else { lo + t }).collect();
+                        subs.push(Verbatim::new(&v, w).map_err(|e| format!("{e:?}"))?.into());
+                    } else {
+                        subs.push(Constant::new(*bs, -77 - n as i32, *bps).map_err(|e| format!("{e:?}"))?.into());
+                    }
+                }
+                Frame::new(hdr, subs.into_iter()).map_err(|e| format!("{e:?}"))
+            };
+            let fa = built!(mk(*a, 0));
+            let fb = built!(mk(*b, 1));
+            let fa2 = built!(mk(*a, 2));
+            let (Some((ba, na)), Some((bb, nb))) = (post_common(&fa, &mut post), post_common(&fb, &mut post)) else {
+                return (post.problems[0].0.clone(), post.problems);
+            };
+            if let Ok(info) = StreamInfo::new(44100, 2, *bps) {
+                // one parser value, two consecutive frames
+                let both: Vec<u8> = ba.iter().chain(bb.iter()).copied().collect();
+                let r = panicx::catch(|| {
+                    let mut parse = parser::frame::<ByteErr>(&info, true);
+                    let (rest, p1) = parse(&both[..]).map_err(|e| format!("first frame: {}", short(e)))?;
+                    let used1 = both.len() - rest.len();
+                    let (rest2, p2) = parse(rest).map_err(|e| format!("second frame (same parser value): {}", short(e)))?;
+                    Ok::<_, String>((used1 * 8, p1, (rest.len() - rest2.len()) * 8, p2))
+                });
+                match r {
+                    Err(p) => post.problems.push((format!("parse_back_{}", p.class()), format!("parsing two consecutive frames panicked: {}", p.describe()))),
+                    Ok(Err(e)) => post.problems.push(("parse_back_rejected|second_frame_of_one_parser".into(), format!("two constructed frames, serialised one after the other, do not parse back with one parser value: {e}"))),
+                    Ok(Ok((u1, p1, u2, p2))) => {
+                        post_parse(&fa, &ba, na, Ok(Ok((u1, p1))), &mut post, |x| Some(format!("{x:?}")), |x| Some(format!("{x:?}")));
+                        post_parse(&fb, &bb, nb, Ok(Ok((u2, p2))), &mut post, |x| Some(format!("{x:?}")), |x| Some(format!("{x:?}")));
+                    }
+                }
+            }
+            if let Ok(Ok(mut s)) = panicx::catch(|| Stream::new(44100, 2, *bps)) {
+                s.add_frame(fa.clone());
+                s.add_frame(fb.clone());
+                s.add_frame(fa2);
+                if let Some((sb, sn)) = post_common(&s, &mut post) {
+                    let parsed = panicx::catch(|| parser::stream::<ByteErr>(&sb[..]).map(|(rest, x)| ((sb.len() - rest.len()) * 8, x)).map_err(short));
+                    post_parse(&s, &sb, sn, parsed, &mut post, |x| Some(format!("{:?}", x.frame_count())), |x| Some(format!("{:?}", x.frame_count())));
+                }
+            }
+        }
         Ctor::MetadataUnknown { tag, len } => {
             let data: Vec<u8> = (0..*len).map(|i| (i % 251) as u8).collect();
             let m = built!(MetadataBlockData::new_unknown(*tag, &data).map_err(|e| format!("{e:?}")));
@@ -447,6 +513,7 @@ fn ctor_name(c: &Ctor) -> &'static str {
         Ctor::StreamInfo { .. } => "StreamInfo::new+setters",
         Ctor::StreamInfoBare { .. } => "StreamInfo::new / Stream::new as returned",
         Ctor::MetadataUnknown { .. } => "MetadataBlockData::new_unknown",
+        Ctor::FrameSeq { .. } => "Frame::new (two consecutive frames / a stream of three)",
     }
 }
 
@@ -576,6 +643,16 @@ pub fn probes() -> Vec<Ctor> {
                     for side in [false, true] {
                         v.push(Ctor::Frame { bs, ch, bps, nsub, sub_bs, sub_bps, side });
                     }
+                }
+            }
+        }
+    }
+    // sequences of constructed frames: every ordered pair of channel assignments
+    for a in 0..4u8 {
+        for b in 0..4u8 {
+            for bps in [8usize, 16, 24, 7, 32] {
+                for bs in [16usize, 64, 0] {
+                    v.push(Ctor::FrameSeq { a, b, bps, bs });
                 }
             }
         }
